@@ -1,1 +1,5 @@
-
+import AmiscProofs.IdxBasic
+import AmiscProofs.CoeffUpdate
+import AmiscProofs.IndexInv
+import AmiscProofs.IEBridge
+import AmiscProofs.IndexExtra
